@@ -106,11 +106,17 @@ class SignatureTrie:
         if len(all_matches) == 0:
             return None
 
-        return all_matches[best_signature_match(sig, [match[0] for match in all_matches])]
+        best_index = best_signature_match(sig, [match[0] for match in all_matches])
+        if best_index is None:
+            # several overloads are equally close (e.g. only `None` literals as
+            # arguments): there is no unique match, the caller reports a type error
+            return None
+        return all_matches[best_index]
 
 
-# returns the index of the signature in `candidates` that matches best
-def best_signature_match(sig: Sequence[Dtype], candidates: Sequence[Sequence[Dtype]]) -> int:
+# returns the index of the signature in `candidates` that matches best, or `None` if
+# the best match is not unique
+def best_signature_match(sig: Sequence[Dtype], candidates: Sequence[Sequence[Dtype]]) -> int | None:
     assert len(candidates) > 0
 
     best_index = 0
@@ -121,7 +127,8 @@ def best_signature_match(sig: Sequence[Dtype], candidates: Sequence[Sequence[Dty
             best_index = i + 1
             best_distance = this_distance
 
-    assert sum(int(best_distance == sig_distance(sig, match)) for match in candidates) == 1
+    if sum(int(best_distance == sig_distance(sig, match)) for match in candidates) != 1:
+        return None
     return best_index
 
 
